@@ -53,7 +53,14 @@ Record runrec := {
   r_cbs : list cbrec
 }.
 
-Record case := { c_runs : list runrec }.
+Record case := {
+  (* the gradient configuration as written by the user (user domain), for the accept/reject decision of
+     GradientConfig.fix_perturbations and the validated magnitudes of the outer run *)
+  c_pts : list Z; c_lbs : list ereal; c_ubs : list ereal; c_ms : list Q;
+  (* observations *)
+  c_rejected : bool;                   (* the step raised a configuration ValidationError before anything ran *)
+  c_runs : list runrec
+}.
 
 Definition qcmp (exact : bool) (S x m : Q) : bool := if exact then Qeqb x m else close S x m.
 Definition vec_eqb (a b : list Q) : bool := list_eqb Qeqb a b.
@@ -190,6 +197,20 @@ Definition check_run (all : list runrec) (r : runrec) : bool :=
   match r_nbounds r with Some (a, b) => Nat.eqb a (nfree r) && Nat.eqb b (nfree r) | None => true end &&
   check_cbs all r {| fixed := r_start r |} None (r_cbs r).
 
+(* the outer run's validated magnitudes are what fix_perturbations computes from the user's configuration *)
+Definition check_mags (c : case) (r : runrec) : bool :=
+  match magnitudes_scaled (c_pts c) (c_lbs c) (c_ubs c) (r_scale r) (r_offset r) (c_ms c) with
+  | MagOk m => forallb2 (qcmp (r_exact r) (r_S r)) (r_mags r) m
+  | _ => false
+  end.
+
 Definition check_case (c : case) : bool :=
   let all := c_runs c in
-  negb (Nat.eqb (length all) 0) && forallb (check_run all) all.
+  let V := length (c_lbs c) in
+  Nat.eqb (length (c_ubs c)) V && Nat.eqb (length (c_pts c)) V && Nat.eqb (length (c_ms c)) V &&
+  if rel_finite (c_pts c) (c_lbs c) (c_ubs c)
+  then negb (c_rejected c) && negb (Nat.eqb (length all) 0) && forallb (check_run all) all &&
+       match all with r :: _ => check_mags c r | [] => false end
+  else
+    (* a RELATIVE variable -- free or fixed -- with an infinite bound: rejected at configuration time, nothing runs *)
+    c_rejected c && Nat.eqb (length all) 0.
